@@ -1,10 +1,11 @@
 #!/bin/bash
 # confirm_seed.sh <PROP> <N> : independently confirm a sub-agent's seeded change in a fresh scratch worktree of /repo HEAD:
 #   patch applies, workspace builds, unedited test suite passes, demo fails WITH the patch and passes WITHOUT it.
-# Writes /tmp/seed/<PROP>/out/<N>/confirm.json ; removes the scratch worktree afterwards.
+# Writes $SEEDROOT/<PROP>/out/<N>/confirm.json (SEEDROOT defaults to /tmp/seed) ; removes the scratch worktree afterwards.
 set -u
 P=$1; N=$2
-SRC=/tmp/seed/$P/out/$N
+SEEDROOT=${SEEDROOT:-/tmp/seed}
+SRC=$SEEDROOT/$P/out/$N
 WT=/tmp/seedconfirm/$P-$N
 LOG=$SRC/confirm.log
 mkdir -p /tmp/seedconfirm
